@@ -132,7 +132,12 @@ def FCS(n=2, buf=2, mx=2):   # both ports of a FileCombinator fed by ONE upstrea
                 procs=[src("s", items(n)), dict(name="fc", kind="fcomb", ins=["x", "y"]), cmd("j", ["x", "y"])],
                 edges=[E("s.out", "fc.x"), E("s.out", "fc.y"), E("fc.x>", "j.x"), E("fc.y>", "j.y")])
 
-ZOO = dict(Z20=Z20, PC3=PC3, PC2S=PC2S, FC2=FC2, FCS=FCS, Z17=Z17, Z18=Z18, Z19=Z19, Z5c=Z5c, Z1=Z1, Z2=Z2, Z3=Z3, Z4=Z4, Z5=Z5, Z6=Z6, Z7=Z7, Z8=Z8, Z9=Z9, Z10=Z10, Z13=Z13, Z14=Z14,
+def Z21(n=6, buf=2, mx=2):     # the driver (leaf) depends on a process that also has an out-port nobody consumes (drained by the sink meanwhile)
+    return dict(name="Z21", max=mx, bufsize=buf,
+                procs=[src("s", items(n)), cmd("a", ["in"], ["o1", "o2"]), cmd("leaf", ["x"], [])],
+                edges=[E("s.out", "a.in"), E("a.o1", "leaf.x")])
+
+ZOO = dict(Z20=Z20, Z21=Z21, PC3=PC3, PC2S=PC2S, FC2=FC2, FCS=FCS, Z17=Z17, Z18=Z18, Z19=Z19, Z5c=Z5c, Z1=Z1, Z2=Z2, Z3=Z3, Z4=Z4, Z5=Z5, Z6=Z6, Z7=Z7, Z8=Z8, Z9=Z9, Z10=Z10, Z13=Z13, Z14=Z14,
            Z15=Z15, Z16=Z16, Z5b=Z5b)
 
 # ----------------------------------------------------------------------------
